@@ -21,6 +21,9 @@ Record case := mk_case {
   o_reused : list row; o_reused_ra : Z;   (* Find into a slice that already holds 3 records (capacity 8) *)
   o_single : option row; o_single_ra : Z; (* Find into one struct: the first row *)
   o_prim : option Z; o_prim_ra : Z;       (* Select(id).Scan into one integer: keeps the last row *)
+  (* Find into a slice of maps that already holds the map (-9, -9); First into such a slice reports
+     ErrRecordNotFound *)
+  o_reusedmaps : list row; o_reusedmaps_ra : Z; o_reusedfirst_nf : bool;
   o_scanmaps : list row; o_scanmaps_ra : Z;   (* Scan into a slice of maps *)
   o_rowsmaps : list row;                      (* Rows + ScanRows into a slice of maps, row by row *)
   o_firstmap : option row; o_lastmap : option row; o_takemap : option row;  (* single-record finders into a map *)
@@ -63,6 +66,10 @@ Definition model_agrees (c : case) : bool :=
   && rows_eqb (o_array c) (s_dest (scan (DArray array_len) junk f))
   && dest_eqb (o_reused c) (o_reused_ra c) (scan DStructSlice junk f)
   && dest_eqb (o_scanmaps c) (o_scanmaps_ra c) (scan DMapSlice [] f) && rows_eqb (o_rowsmaps c) f
+  && dest_eqb (o_reusedmaps c) (o_reusedmaps_ra c) (scan DMapSlice [(-9, -9)] f)
+  && Bool.eqb (o_reusedfirst_nf c)
+       (scan_not_found true (scan DMapSlice [(-9, -9)]
+          (match first_ (c_tbl c) (c_cond c) (c_ord c) st with Some r => [r] | None => [] end)))
   && orow_eqb (o_firstmap c) (first_ (c_tbl c) (c_cond c) (c_ord c) st)
   && orow_eqb (o_lastmap c) (last_ (c_tbl c) (c_cond c) (c_ord c) st)
   && orow_eqb (o_takemap c) (take_ (c_tbl c) (c_cond c) (c_ord c) st)
@@ -114,6 +121,10 @@ Definition spec_holds (c : case) : bool :=
   (* a destination that held records before reports the rows of this call only *)
   && rows_eqb (o_reused c) f && (o_reused_ra c =? Z.of_nat (length f))
   && rows_eqb (o_scanmaps c) f && (o_scanmaps_ra c =? Z.of_nat (length f)) && rows_eqb (o_rowsmaps c) f
+  (* a slice of maps is appended to: the rows of this call follow what it held, RowsAffected counts
+     the rows of this call, and a single-record finder reports not-found exactly when nothing matches *)
+  && rows_eqb (o_reusedmaps c) ((-9, -9) :: f) && (o_reusedmaps_ra c =? Z.of_nat (length f))
+  && Bool.eqb (o_reusedfirst_nf c) (match o_first c with None => true | Some _ => false end)
   (* single-record finders agree whatever the destination kind (struct or map), incl. not-found *)
   && orow_eqb (o_firstmap c) (o_first c) && orow_eqb (o_lastmap c) (o_last c) && orow_eqb (o_takemap c) (o_take c)
   && orow_eqb (o_single c) (hd_error f)
